@@ -731,7 +731,9 @@ Inductive c26_case :=
    whose Function the real Repopulate installed (by probing), its ok flag; host result and plugin-side result agree *)
 | KCall (name : list Z) (idx : nat) (arg_types : list wty) (got : option nat) (ok : bool) (same_result : bool)
 (* a received signature that belongs to no descriptor *)
-| KUnknown (name : list Z) (sg : wsig) (arg_types : list wty) (got : option nat) (ok : bool).
+| KUnknown (name : list Z) (sg : wsig) (arg_types : list wty) (got : option nat) (ok : bool)
+(* end to end: the CLI's rows for a query against the test plugin equal its rows for the same data as a JSON file *)
+| KQuery (same_rows : bool).
 
 Definition olist_eqb {A} (eqb : A -> A -> bool) := list_eqb (list_eqb eqb).
 
@@ -779,6 +781,7 @@ Section Cases.
       | Ok (g, k) => opt_eqb Nat.eqb g got && Bool.eqb k ok
       | _ => false
       end
+    | KQuery _ => true
     end.
 
   (* the same with the pinned resolution rule (used to show the witness of C26_repopulate_refuted on the code) *)
@@ -803,9 +806,9 @@ Section Cases.
     match c with
     | KValue v _ back wok wback =>
       value_eqb_loc back (normalise v) &&
-      match wback with Some b => value_eqb_loc b (normalise v) | None => negb (pvalue_wire_ok (to_proto v)) end
+      match wback with Some b => value_eqb_loc b (normalise v) | None => false end
     | KType t _ back wok wback =>
-      wty_eqb back t && match wback with Some b => wty_eqb b t | None => negb (ptype_wire_ok (type_to_proto t)) end
+      wty_eqb back t && match wback with Some b => wty_eqb b t | None => false end
     | KSchema s _ back => wschema_eqb back s
     | KRecord r _ back => wrecord_eqb back (record_normalise r)
     | KMeta m _ back => wmeta_eqb back (mkwmeta (m_type m) (m_watermark m) loc_utc)
@@ -813,6 +816,12 @@ Section Cases.
     | KEctx c _ back => olist_eqb value_eqb_loc back (map (map normalise) c)
     | KFromProto _ _ => true
     | KCall name idx _ got ok same => opt_eqb Nat.eqb got (Some idx) && ok && same
-    | KUnknown _ _ _ got ok => opt_eqb Nat.eqb got None && negb ok
+    | KUnknown name sg _ got ok =>
+      (* only a signature that no descriptor of that name passes the four checks against must be refused *)
+      match lookup_name tbl name with
+      | Some ds => if existsb (fun d => sig_match d sg) ds then true else opt_eqb Nat.eqb got None && negb ok
+      | None => opt_eqb Nat.eqb got None && negb ok
+      end
+    | KQuery same => same
     end.
 End Cases.
